@@ -212,10 +212,12 @@ struct FnDirective {
     extra_where: Option<String>,
     clauses: Vec<String>,
     loops: BTreeMap<usize, Vec<String>>,
+    loop_iters: BTreeMap<usize, String>,
     hints: Vec<Hint>,
     props: Vec<String>,
     trusted: bool, // emit signature + clauses with external_body (assumed contract, listed)
     nocanary: bool,
+    noisolation: bool,
 }
 
 struct Hint {
@@ -296,6 +298,7 @@ fn main() {
     let mut report_items: Vec<serde_json::Value> = Vec::new();
     let mut rewrite_counts: BTreeMap<String, usize> = BTreeMap::new();
     let mut includes: Vec<String> = Vec::new();
+    let mut file_renames: HashMap<String, Vec<(String, String)>> = HashMap::new();
 
     let tl: Vec<&str> = template.lines().collect();
     let mut i = 0;
@@ -313,6 +316,12 @@ fn main() {
         } else if let Some(rest) = t.strip_prefix("//@map ") {
             let (a, b) = rest.split_once("=>").unwrap_or_else(|| die("bad //@map"));
             maps.push((norm(a), b.trim().to_string()));
+            i += 1;
+        } else if let Some(rest) = t.strip_prefix("//@rename ") {
+            // per-file rename of a top-level item (the generated file is one flat namespace)
+            let (f, r) = rest.split_once(" :: ").unwrap_or_else(|| die("bad //@rename"));
+            let (a, b) = r.split_once("=>").unwrap_or_else(|| die("bad //@rename"));
+            file_renames.entry(f.trim().to_string()).or_default().push((norm(a), b.trim().to_string()));
             i += 1;
         } else if let Some(rest) = t.strip_prefix("//@mapmethod ") {
             let (a, b) = rest.split_once("=>").unwrap_or_else(|| die("bad //@mapmethod"));
@@ -343,7 +352,11 @@ fn main() {
             let mut it = found.unwrap_or_else(|| die(&format!("item not found: {} :: {}", parts[0], name)));
             let lines = span_lines(&it);
             let orig = if lines.0 != usize::MAX { src_text(f, lines) } else { String::new() };
-            let mut rw = Rw::new(&maps, &method_maps);
+            let mut fmaps = maps.clone();
+            if let Some(fr) = file_renames.get(&parts[0]) {
+                fmaps.extend(fr.iter().cloned());
+            }
+            let mut rw = Rw::new(&fmaps, &method_maps);
             let mut derives_clone = false;
             let mut from_impls: Vec<String> = Vec::new();
             if let Item::Enum(en) = &it {
@@ -384,7 +397,12 @@ fn main() {
                     }
                     rw.fix_generics(&mut s.generics);
                 }
-                Item::Const(s) => s.attrs.clear(),
+                Item::Const(s) => {
+                    s.attrs.clear();
+                    if let Some((_, to)) = fmaps.iter().find(|(f, _)| *f == s.ident.to_string()) {
+                        s.ident = Ident::new(to, s.ident.span());
+                    }
+                }
                 Item::Static(s) => s.attrs.clear(),
                 Item::Type(s) => s.attrs.clear(),
                 _ => {}
@@ -455,6 +473,7 @@ fn main() {
                 props: opts.get("props").map(|s| s.split_whitespace().map(|x| x.to_string()).collect()).unwrap_or_default(),
                 trusted: opts.contains_key("trusted"),
                 nocanary: opts.contains_key("nocanary"),
+                noisolation: opts.contains_key("noisolation"),
                 ..Default::default()
             };
             i += 1;
@@ -475,8 +494,14 @@ fn main() {
                     i += 1;
                     break;
                 } else if let Some(r) = lt.strip_prefix("//@loop ") {
-                    let n: usize = r.trim().parse().unwrap_or_else(|_| die("bad //@loop"));
+                    let mut it = r.trim().split_whitespace();
+                    let n: usize = it.next().unwrap_or("").parse().unwrap_or_else(|_| die("bad //@loop"));
                     d.loops.insert(n, vec![]);
+                    for o in it {
+                        if let Some(name) = o.strip_prefix("iter=") {
+                            d.loop_iters.insert(n, name.to_string());
+                        }
+                    }
                     mode = Mode::Loop(n);
                 } else if let Some(r) = lt.strip_prefix("//@hint ") {
                     let r = r.trim();
@@ -505,7 +530,11 @@ fn main() {
                 i += 1;
             }
             let f = files.entry(d.file.clone()).or_insert_with(|| load(&repo, &d.file));
-            emit_fn(f, &d, &maps, &method_maps, &mut out, &mut report_fns, &mut rewrite_counts);
+            let mut fmaps = maps.clone();
+            if let Some(fr) = file_renames.get(&d.file) {
+                fmaps.extend(fr.iter().cloned());
+            }
+            emit_fn(f, &d, &fmaps, &method_maps, &mut out, &mut report_fns, &mut rewrite_counts);
         } else if t.starts_with("//@") {
             die(&format!("unknown directive: {t}"));
         } else {
@@ -515,7 +544,7 @@ fn main() {
     }
 
     std::fs::write(&args[3], out.lines.join("\n") + "\n").unwrap();
-    let canary_path = args[3].replace(".rs", ".canary.rs");
+    let canary_path = args[3].replace(".rs", "_canary.rs");
     std::fs::write(&canary_path, out.canary_lines.join("\n") + "\n").unwrap();
     let rep = serde_json::json!({
         "template": args[1], "repo": repo, "out": args[3], "canary": canary_path,
@@ -706,10 +735,9 @@ fn emit_fn(
         where_s = format!("\n    where {}", preds.join(", "));
     }
     let sig_s = format!(
-        "{} {} fn {}{}({}){}{}",
+        "{} {} fn @@NAME@@{}({}){}{}",
         vis.to_token_stream(),
         asy,
-        name,
         one_line(&mg_ts.to_string()),
         one_line(&inputs.to_token_stream().to_string()),
         ret_s,
@@ -757,7 +785,14 @@ fn emit_fn(
                 die("loop header shape");
             }
             let hdr = body[h].trim_end();
-            let hdr = hdr[..hdr.len() - 1].trim_end().to_string();
+            let mut hdr = hdr[..hdr.len() - 1].trim_end().to_string();
+            if let Some(itn) = d.loop_iters.get(&n) {
+                // Verus' named-iterator form: `for p in it: e` (so invariants can speak of the position)
+                match hdr.find(" in ") {
+                    Some(p) if hdr.trim_start().starts_with("for ") => hdr = format!("{} in {}: {}", &hdr[..p], itn, &hdr[p + 4..]),
+                    _ => die("iter= on a loop that is not a single-line `for`"),
+                }
+            }
             body[h] = hdr;
             let mut ins: Vec<String> = Vec::new();
             if let Some(cl) = d.loops.get(&n) {
@@ -832,7 +867,11 @@ fn emit_fn(
         if d.trusted {
             target.push("#[verifier::external_body]".into());
         }
-        for l in sig_s.split('\n') {
+        if d.noisolation {
+            target.push("#[verifier::loop_isolation(false)]".into());
+        }
+        let nm = if canary { format!("{}__canary", name) } else { name.to_string() };
+        for l in sig_s.replace("@@NAME@@", &nm).split('\n') {
             target.push(l.to_string());
         }
         let mut clauses = d.clauses.clone();
@@ -873,7 +912,14 @@ fn emit_fn(
         (start, target.len(), body_start)
     };
     let (s, e, bs) = emit(false, &mut out.lines);
-    let (cs, ce, _) = emit(!d.nocanary && !d.trusted, &mut out.canary_lines);
+    // the canary file holds the original (so callers see the real contract) plus a renamed twin that must fail
+    let _ = emit(false, &mut out.canary_lines);
+    let (cs, ce) = if !d.nocanary && !d.trusted {
+        let (a, b, _) = emit(true, &mut out.canary_lines);
+        (a, b)
+    } else {
+        (0, 0)
+    };
     for l in &rw.log {
         *rewrite_counts.entry(l.split(' ').next().unwrap().to_string()).or_default() += 1;
     }
